@@ -61,7 +61,7 @@ class Rec:
         try:
             self._reconcile()
         except Exception as exc:  # noqa
-            self.end("could not be expressed: " + type(exc).__name__)
+            self.end("could not be expressed: " + type(exc).__name__ + ": " + str(exc)[:60])
         finally:
             realize.VALUE_REGISTRY = None
 
@@ -81,18 +81,24 @@ class Rec:
         for k in new:
             if self.lost.get(k) != now[k]:
                 return self.end("foreign database entry")
+        cur = dict(self.prev)
         for k in gone:
             self.shadow.update(self.prev)
             node = decode_entry(self.shadow, k, self.problems)
             self.lost[k] = self.prev[k]
             self.faults = True
-            self.emit("lose", {"kind": "ok"}, n=node, observe_from=dict(self.prev, **{}), drop=k)
+            del cur[k]
+            self.emit("lose", {"kind": "ok"}, n=node, now_override=dict(cur))     # one entry per event
         for k in new:
-            node = decode_entry(dict(self.shadow, **{k: now[k]}), k, self.problems)
+            known = dict(self.shadow)
+            known[k] = now[k]
+            node = decode_entry(known, k, self.problems)
             del self.lost[k]
-            self.emit("supply", {"kind": "ok"}, n=node)
+            cur[k] = now[k]
+            self.emit("supply", {"kind": "ok"}, n=node, now_override=dict(cur))
 
-    def emit(self, a, real, *, i=1, k=b"", v=b"", n=None, drop=None, observe_from=None, look=()):
+    def emit(self, a, real, *, i=1, k=b"", v=b"", n=None, now_override=None, look=()):
+        outer_registry = realize.VALUE_REGISTRY
         realize.VALUE_REGISTRY = self.registry
         try:
             trie = self.batch if a in ("bset", "bget") and self.batch is not None else self.t
@@ -111,7 +117,7 @@ class Rec:
             self.shadow.update(self.db)
             if self.batch is not None:
                 self.shadow.update({kk: vv for kk, vv in self.batch.db.cache.items() if isinstance(vv, bytes)})
-            now = dict(self.db)
+            now = dict(self.db) if now_override is None else now_override
             add = [x for x in now if x not in self.prev]
             dele = [x for x in self.prev if x not in now]
             view = self.view()
@@ -141,9 +147,9 @@ class Rec:
             if len(self.ev) >= MAX_STEPS:
                 self.end("more than %d calls" % MAX_STEPS)
         except Exception as exc:  # noqa
-            self.end("could not be expressed: " + type(exc).__name__)
+            self.end("could not be expressed: " + type(exc).__name__ + ": " + str(exc)[:60])
         finally:
-            realize.VALUE_REGISTRY = None
+            realize.VALUE_REGISTRY = outer_registry
 
     def trace(self):
         probs = [p[0] for p in self.problems]
